@@ -837,12 +837,26 @@ impl Shared {
                 if let Some(c) = self.read_chunk {
                     n = n.min(c.max(1));
                 }
-                let out = seg.data[seg.pos..seg.pos + n].to_vec();
+                let mut out = seg.data[seg.pos..seg.pos + n].to_vec();
                 seg.pos += n;
                 if seg.pos == seg.data.len() {
                     self.segs.pop_front();
+                    // whatever else has already arrived (no segment boundary was asked for in between) is
+                    // delivered by the same read, as a socket would: bursts arrive coalesced by default
+                    while out.len() < cap && self.read_chunk.is_none() {
+                        let Some(next) = self.segs.front_mut() else { break };
+                        if next.at > now || next.yield_first {
+                            break;
+                        }
+                        let m = (next.data.len() - next.pos).min(cap - out.len());
+                        out.extend_from_slice(&next.data[next.pos..next.pos + m]);
+                        next.pos += m;
+                        if next.pos == next.data.len() {
+                            self.segs.pop_front();
+                        }
+                    }
                 }
-                self.consumed += n;
+                self.consumed += out.len();
                 return ReadAnswer::Deliver(out);
             }
             if self.hung_up {
@@ -1393,6 +1407,10 @@ pub struct Login {
     pub locale: String,
     pub client_info_after: Ms,
     pub pipelined: bool,
+    /// everything the client can send without waiting for the server goes out in one burst: handshake, login
+    /// start and the cookie answers before anything was asked; Encryption Response (which needs the token),
+    /// Login Acknowledged and Client Information together, without waiting for Login Success
+    pub eager: bool,
 }
 
 impl Default for Login {
@@ -1409,6 +1427,7 @@ impl Default for Login {
             locale: "en_us".into(),
             client_info_after: 0,
             pipelined: false,
+            eager: false,
         }
     }
 }
@@ -1418,16 +1437,16 @@ impl Login {
     pub fn steps(&self) -> Vec<Step> {
         let mut v = vec![
             st(When::Idle, Act::Handshake { proto: 769, host: self.host.clone(), port: self.port, next: self.intent }),
-            st(if self.pipelined { When::With } else { When::Idle }, Act::LoginStart { name: self.name.clone(), uuid: self.uuid }),
-            st(When::Idle, Act::Cookie { key: "passage:session".into(), payload: self.session.clone() }),
+            st(if self.pipelined || self.eager { When::With } else { When::Idle }, Act::LoginStart { name: self.name.clone(), uuid: self.uuid }),
+            st(if self.eager { When::With } else { When::Idle }, Act::Cookie { key: "passage:session".into(), payload: self.session.clone() }),
         ];
         if let Some(p) = &self.auth_cookie {
-            v.push(st(When::Idle, Act::Cookie { key: "passage:authentication".into(), payload: p.clone() }));
+            v.push(st(if self.eager { When::With } else { When::Idle }, Act::Cookie { key: "passage:authentication".into(), payload: p.clone() }));
         }
         v.push(st(When::Idle, Act::EncResponse(self.enc.clone())));
-        v.push(st(When::Idle, Act::LoginAck));
+        v.push(st(if self.eager { When::With } else { When::Idle }, Act::LoginAck));
         v.push(st(
-            if self.client_info_after > 0 { When::IdleAfter(self.client_info_after) } else if self.pipelined { When::With } else { When::Idle },
+            if self.client_info_after > 0 { When::IdleAfter(self.client_info_after) } else if self.pipelined || self.eager { When::With } else { When::Idle },
             Act::ClientInfo { locale: self.locale.clone() },
         ));
         v
